@@ -86,6 +86,8 @@ VARIANTS = {
     # two address families whose routes share attribute sets: the queue is keyed by attribute set, then family
     'labeled': dict(group='group-updates true;', addpath='', ops=['Ax', 'Ay', 'Lx', 'Ly', '-A', '-L', 'flush', 'clear', 'pull']),
     'addpath': dict(group='group-updates true;', addpath='add-path send/receive;', ops=['Ax', 'Ay', 'Az', 'Bx', '-A', '-A2', 'flush', 'clear', 'pull']),
+    # the same texts (path-information written) on a session without ADD-PATH: the wire has no path identifier, the two paths of A are one route there
+    'pathid': dict(group='group-updates true;', addpath='', texts='ap', ops=['Ax', 'Az', 'Bx', '-A', '-A2', 'clear', 'pull']),
 }
 
 
@@ -131,7 +133,7 @@ def world(variant: str):
 
     api.configuration = Configuration([])
     api.reactor = None
-    texts = ROUTES_AP if variant == 'addpath' else ROUTES
+    texts = ROUTES_AP if variant == 'addpath' or v.get('texts') == 'ap' else ROUTES
     routes = {}
     for name, text in texts.items():
         (r,) = api.api_route(text, 'announce')
@@ -279,6 +281,8 @@ class State:
             pid = 2 if name == 'Az' else 1
             nh = '1.1.1.1'
             key = (key[0], key[1], pid) + key[3:]
+        elif self.w['variant'] == 'pathid':
+            nh = '1.1.1.1'   # (the path-information texts all use this next hop; the key keeps no path identifier: the wire has none)
         return key, nh, med
 
     # -- observations -----------------------------------------------------------------------------
@@ -286,7 +290,15 @@ class State:
         """The Adj-RIB-Out ExaBGP reports, parsed from the text it would show the operator."""
         out = {}
         for r in self.rib.cached_routes():
-            out[_key_from_text(r)] = _nh_med_from_text(r)
+            k = _key_from_text(r)
+            if self.w['variant'] == 'pathid':
+                # what ExaBGP reports is compared by the key the peer can see; two entries under one such key are a disagreement in themselves
+                k2 = (k[0], k[1], None) + k[3:]
+                if k2 in out and out[k2] != _nh_med_from_text(r):
+                    out[k2] = ('two-entries', out[k2], _nh_med_from_text(r))
+                    continue
+                k = k2
+            out[k] = _nh_med_from_text(r)
         return out
 
     def peer_table(self):
@@ -423,7 +435,7 @@ def classify(variant, hist, kind, detail):
             shapes.add('stale-at-peer')
     if kind in ('exception', 'emitted-undecodable'):
         shapes = {detail.split(':')[0]}
-    return f'{kind}:{"+".join(sorted(shapes))}'
+    return f'{kind}:{"+".join(sorted(shapes))}' + (':pathid' if variant == 'pathid' else '')
 
 
 def _expand(args):
@@ -439,7 +451,10 @@ def _expand(args):
 
 def run(ctx: core.Ctx) -> None:
     depth = int(os.environ.get('C04_DEPTH', '6' if ctx.tier == 'quick' else '7'))
-    variants = ['grouped', 'ungrouped', 'v6', 'labeled', 'addpath']
+    variants = ['grouped', 'ungrouped', 'v6', 'labeled', 'addpath', 'pathid']
+    if os.environ.get('C04_ONLY'):
+        variants = [v for v in variants if v in os.environ['C04_ONLY'].split(',')]
+        ctx.cap(f'restricted to variants {variants} by C04_ONLY')
     ctx.rule = ('BFS over all operation sequences (announce same prefix with 2 attribute sets / 2 next hops / 2 path ids, '
                 'withdraw (bare prefix; in the ungrouped variant the full announce line, i.e. with attributes), watchdog +/-, flush, enhanced flush, clear, transmitter pull) up to depth %d on a real OutgoingRIB driven '
                 'through the real Protocol.new_update_generator; a state is non-trivial when the drained peer table is non-empty '
